@@ -59,6 +59,8 @@ PROBES = ["add_array", "iadd_array", "mul_array", "div_array", "sub_array", "neg
           "add_negative_hist", "iadd_negative_hist",
           # operations on a collection of histograms: legal with the switch on or off, and they must leave it alone
           "coll_normalize_bins", "coll_normalize_all", "coll_sum",
+          # array-like operands on the LEFT that happen to be all zero (or empty): still array arithmetic
+          "radd_zero_array", "radd_zero_list", "radd_zero_int_array",
           # refused with the switch on or off - they exercise the raising paths of the operators:
           "sub_incompatible", "sub_other_ndim", "add_incompatible", "isub_incompatible", "mul_hist", "div_hist"]
 ALWAYS_REFUSED = {"sub_incompatible", "sub_other_ndim", "add_incompatible", "isub_incompatible", "mul_hist", "div_hist"}
@@ -283,6 +285,12 @@ class Interp:
                 fn = lambda: coll.normalize_all(inplace=bool(self.depth % 2))  # noqa: E731
             else:
                 fn = coll.sum
+        elif kind == "radd_zero_array":
+            fn = lambda: np.zeros(shape) + h  # noqa: E731
+        elif kind == "radd_zero_int_array":
+            fn = lambda: np.zeros(shape, dtype=np.int64) + h  # noqa: E731
+        elif kind == "radd_zero_list":
+            fn = lambda: np.zeros(shape).tolist() + h  # noqa: E731
         elif kind == "neg_factor":
             fn = lambda: h * (-1)  # noqa: E731
         elif kind == "oversub":
